@@ -109,6 +109,7 @@ type Interp struct {
 	sharedW    []string // shared writes after checkpoint (C20)
 	ckEpoch    int32
 	permute    bool
+	permMode   int
 	curHarness string
 	initing    bool
 	trace      bool
@@ -1794,10 +1795,19 @@ func (in *Interp) rangeOp(v Value) Value {
 					it.keys = append(it.keys, e.k)
 				}
 			}
-			if in.permute && len(it.keys) > 1 {
-				in.permuteKeys(it)
-			} else if len(it.keys) > 1 && x.keysSortable() {
-				// deterministic but not insertion order dependent: keep insertion order
+			if in.permMode != 0 && len(it.keys) > 1 {
+				n := len(it.keys)
+				keys := make([]Value, n)
+				for i := range keys {
+					switch in.permMode {
+					case 1: // reversed
+						keys[i] = it.keys[n-1-i]
+					default: // rotated by one
+						keys[i] = it.keys[(i+1)%n]
+					}
+				}
+				it.keys = keys
+				in.permute = true
 			}
 		}
 		return it
